@@ -37,6 +37,7 @@ def main():
     ap.add_argument('--replay')
     ap.add_argument('--cases', type=int)
     ap.add_argument('--workers', type=int)
+    ap.add_argument('--replay-child', action='store_true')
     ap.add_argument('--one', type=int, help='run exactly one case index in this process (crash isolation)')
     ap.add_argument('--digest-only', action='store_true', help='print the campaign digest (determinism self-test)')
     args = ap.parse_args()
@@ -54,6 +55,20 @@ def main():
         print(f'HARNESS-ERROR no such check {check_id}')
         return 2
 
+    if args.replay and not args.replay_child:
+        # the replay runs in a child process so that a crash of the engine (sanitizer abort, segfault) is observed
+        import subprocess
+        p = subprocess.run([sys.executable, os.path.abspath(__file__), check_id, '--replay', args.replay,
+                            '--replay-child'], capture_output=True, text=True, timeout=600)
+        sys.stdout.write(p.stdout)
+        died = p.returncode < 0 or p.returncode >= 100 or 'AddressSanitizer' in p.stderr or 'runtime error:' in p.stderr
+        if died:
+            print(f'VIOLATION property={check_id} replay={args.replay}')
+            print('   clause=process-crash ' + kernel.crash_summary(p.returncode, p.stderr)[:1500])
+            return 1
+        if p.returncode not in (0, 1):
+            sys.stderr.write(p.stderr[-3000:])
+        return p.returncode
     if args.replay:
         return replay(check, args.replay)
 
